@@ -46,14 +46,22 @@ package main
 //@ func (r *patchRunner) Apply(filename, f) (fout, comments, matched)
 //@   requires f != nil
 //@   requires wfProgs(r.patches)
-//@   assigns r.errors, elems(r.errors), group(ast)
+//@   assigns r.errors, elems(r.errors), group(ast), matchCount, replFail
 //@   ensures [C06,C08,C09] matched-has-file: matched ==> fout != nil
+//@   ensures [C06] matched-only-after-match: matched ==> matchCount > old(matchCount)
+//@   ensures [C09,C12,C16] failed-replace-means-unmatched: replFail > old(replFail) ==> (!matched && len(r.errors) > old(len(r.errors)))
 //@   ensures [C06,C09] only-errors-grow: len(r.errors) >= old(len(r.errors))
 //@   loop 0
 //@     invariant matched ==> fout != nil
+//@     invariant matched ==> matchCount > old(matchCount)
+//@     invariant matchCount >= old(matchCount)
+//@     invariant replFail == old(replFail)
 //@     invariant len(r.errors) >= old(len(r.errors))
 //@   loop 1
 //@     invariant matched ==> fout != nil
+//@     invariant matched ==> matchCount > old(matchCount)
+//@     invariant matchCount >= old(matchCount)
+//@     invariant replFail == old(replFail)
 //@     invariant len(r.errors) >= old(len(r.errors))
 
 //@ func findFiles(cwd, patterns) (files, err)
